@@ -182,7 +182,9 @@ class Lex(Part):
                 mine = {'kinds': kinds}
             except Violation as vv:
                 mine = {'panic': str(vv)}
-            if ('panic' in mine) != ('panic' in out) or ('kinds' in mine and mine['kinds'] != out.get('kinds')):
+            # the native side renders kinds with Debug (`Keyword(Abs)`), the interpreter reports the variant name
+            theirs = [k.split('(')[0] for k in out.get('kinds', [])]
+            if ('panic' in mine) != ('panic' in out) or ('kinds' in mine and mine['kinds'] != theirs):
                 bad.append({'case': self.case_of(w), 'interpreter': mine, 'native': out})
         return len(cases), bad
 
